@@ -22,6 +22,54 @@ MANIFEST = {
 }
 
 CHARSET = "qpzry9x8gf2tvdw0s3jn54khce6mua7l"
+
+# Anchored expressions that must occur, verbatim up to whitespace and comments, in the body of
+# `fn verify_metadata` (offers/signer.rs). In the derived-key modes the key record is excluded from
+# the MAC, so these comparisons are the only thing that binds it; the model (OfferMeta.verify_metadata)
+# and C18_metadata_derived_key_binds_record state them over FULL encodings.
+VERIFY_METADATA_PINS = [
+    "metadata.len()==Nonce::LENGTH",
+    "fixed_time_eq(&signing_pubkey.serialize(),&derived_keys.public_key().serialize())",
+    "metadata.len()==Nonce::LENGTH+Sha256::LEN&&fixed_time_eq(&metadata[Nonce::LENGTH..],&hmac.to_byte_array())",
+]
+
+
+def _fn_body(src, name):
+    m = re.search(r"\bfn\s+%s\b" % re.escape(name), src)
+    if not m:
+        return None
+    i = src.index("{", src.index(")", m.end()))
+    depth = 0
+    for j in range(i, len(src)):
+        if src[j] == "{":
+            depth += 1
+        elif src[j] == "}":
+            depth -= 1
+            if depth == 0:
+                return src[i:j + 1]
+    return None
+
+
+def generate(ctx):
+    """Structural pin (no Gallina is generated): refuse when verify_metadata no longer compares what the
+    model says it compares. The judge over the alteration sweeps then supplies the failing input."""
+    import hashlib
+    path = os.path.join(core.REPO, "lightning", "src", "offers", "signer.rs")
+    src = open(path).read()
+    body = _fn_body(src, "verify_metadata")
+    if body is None:
+        raise RuntimeError("offers/signer.rs: fn verify_metadata not found")
+    # drop the cfg(fuzzing) escape hatches, comments, attributes and whitespace
+    norm = re.sub(r"//[^\n]*", "", body)
+    norm = re.sub(r"#\[cfg\(fuzzing\)\]\s*if[^{]*\{[^}]*\}", "", norm)
+    norm = re.sub(r"#\[[^\]]*\]", "", norm)
+    norm = re.sub(r"\s+", "", norm)
+    missing = [p for p in VERIFY_METADATA_PINS if p not in norm]
+    meta = [{"item": "offers/signer.rs::verify_metadata", "sha256": hashlib.sha256(body.encode()).hexdigest()[:16], "pins": len(VERIFY_METADATA_PINS)}]
+    ctx.gen_meta = meta
+    if missing:
+        raise RuntimeError("verify_metadata no longer contains the pinned comparison(s): " + "; ".join(missing) + " -- normalised body: " + norm[:900])
+    return meta
 TAGS = ["lightninginvoice_requestsignature", "lightninginvoicesignature"]
 
 IMPORTS = ["LdkV.Prim.U64", "LdkV.Crypto.Bytes", "LdkV.Crypto.Sha256", "LdkV.Model.Bech32", "LdkV.Model.Bolt11",
@@ -194,6 +242,17 @@ def judge_gen(ctx, recs):
             ctx.coverage["bolt11_random_strings_parsed"] = r["stats"]["same_content"]
         if r["k"] == "b12fuzz":
             ctx.coverage["bolt12_fuzz_cases"] = r["cases"]
+    sweeps = {}
+    for r in recs:
+        if r["k"] == "metasweep":
+            k = "%s | %s | %s" % (r["check"], r["mode"], "every bit of every record" if r["full_bits"] else "every bit of key records, 2 bits of others")
+            x = sweeps.setdefault(k, {"objects": 0, "valid_altered_objects": 0, "refused": 0, "key_record_variants": 0, "unbuildable": 0})
+            x["objects"] += 1
+            x["valid_altered_objects"] += r["total"]
+            x["refused"] += r["refused"]
+            x["key_record_variants"] += r["key_record_variants"]
+            x["unbuildable"] += r["unbuildable"]
+    ctx.coverage["metadata_alteration_sweeps"] = sweeps
     meta = [r for r in recs if r["k"] == "meta"]
     mh = {}
     for r in meta:
@@ -497,9 +556,10 @@ def corr_meta(ctx, recs, rng):
     # balanced sample over (check, expect, verdict)
     groups = {}
     for r in meta:
-        groups.setdefault((r["check"], r["expect"], r["verdict"]), []).append(r)
+        keyrec = ("of type 22" in r["case"]) or ("of type 88" in r["case"])
+        groups.setdefault((r["check"], r.get("mode", ""), r["expect"], r["verdict"], keyrec), []).append(r)
     sample = []
-    per = 8 if q else 150
+    per = 4 if q else 40
     for k in sorted(groups):
         g = groups[k]
         sample += g[:: max(1, len(g) // per)][:per]
@@ -548,6 +608,14 @@ def run(ctx):
         ctx.violation("harness does not build against the current tree", {"broken": "harness-build", "log_tail": out[-3000:]}, False)
         ctx.write_evidence(LEVEL)
         return
+    gen_err = None
+    try:
+        generate(ctx)
+        ctx.obligations.append(("pin:offers/signer.rs::verify_metadata compares full key encodings", True, "anchored expressions present"))
+    except Exception as ex:
+        gen_err = str(ex)
+        ctx.log("structural pin refused:", gen_err[:400])
+        ctx.obligations.append(("pin:offers/signer.rs::verify_metadata compares full key encodings", False, gen_err[:600]))
     okm, outm = ctx.coq_make(["Model/Bech32.vo", "Model/Bolt11.vo", "Model/Bolt12Merkle.vo", "Model/OfferMeta.vo", "Model/Bolt12Exec.vo"])
     proved = ctx.prove("C18")
     ctx.trusted_base += [
@@ -589,9 +657,11 @@ def run(ctx):
             n_corr += sum(x for kk, x in v.items() if isinstance(x, int) and kk in ("strings", "to_u5", "from_u5", "total", "invoices", "hrp_strings", "amounts", "streams", "cases"))
     ctx.coverage["evaluations"] = n_eval + n_corr
     built = len([r for r in recs if r["k"] in ("b11", "b12") and r.get("built")])
-    ctx.coverage["distinct_nontrivial"] = built + n_corr + len([r for r in recs if r["k"] == "meta"])
+    n_sweep = sum(r["total"] for r in recs if r["k"] == "metasweep")
+    ctx.coverage["evaluations"] += n_sweep
+    ctx.coverage["distinct_nontrivial"] = built + n_corr + len([r for r in recs if r["k"] == "meta"]) + n_sweep
     ctx.coverage["rule"] = ("distinct built objects (distinct seeded field combinations accepted by the builders) + distinct metadata scenarios + distinct model-vs-implementation cases "
-                            "(deduplicated strings / byte strings / streams); non-trivial = reaches the parser or verifier under test. Mutation counts are reported separately in bolt11_mutations / bolt12_signed_bit_flips.")
+                            "(deduplicated strings / byte strings / streams) + distinct valid objects built against altered originals (metadata_alteration_sweeps); non-trivial = reaches the parser or verifier under test. Mutation counts are reported separately in bolt11_mutations / bolt12_signed_bit_flips.")
     for r in recs:
         if r["k"] == "b11" and r.get("built"):
             ctx.samples.append({"bolt11": r["s"][:160] + "...", "parsed": r["desc"]})
@@ -614,6 +684,12 @@ def run(ctx):
         elif f["k"] == "b12sig":
             what = "bit-flipped or truncated signed %s still parses" % f["type"]
             inp = {"original": f["bytes"], "violations": f["violations"] + f["trunc_violations"]}
+        elif f["k"] == "metasweep":
+            v = f["violations"][0]
+            what = "metadata check %s accepted a valid object built against an altered original (%s)" % (f["check"], v["case"])
+            inp = dict(v)
+            inp["mode"] = f["mode"]
+            inp["replay_cmd"] = "printf '%s %s %s\\n' | %s eval" % ("vinv" if f["check"] == "payer" else "vreq", v["key"], v["stream"], ctx.bin_path("h_invoice"))
         elif f["k"] == "meta":
             what = "metadata check %s: expected %s, got %s (%s)" % (f["check"], f["expect"], f["verdict"], f["case"])
             inp = {k: f.get(k) for k in ("check", "case", "key", "nonce", "iv", "stream", "verdict", "expect")}
@@ -623,6 +699,9 @@ def run(ctx):
         ctx.violation("C18 fails on the implementation (%s): %s" % (f["k"] + "/" + f.get("type", f.get("check", "")), str(what)[:300]),
                       {"failing_input": inp, "record": f["k"], "n_failing_records": len(fails)}, True)
     broken = []
+    if gen_err:
+        broken.append({"obligation": "structural pin of verify_metadata (tools/props/C18.py:generate)", "detail": gen_err[:1500]})
+    ctx.coverage["translated_items"] = getattr(ctx, "gen_meta", [])
     if not proved:
         broken.append({"obligation": "Coq proof of Props/C18.v", "detail": getattr(ctx, "proof_failure", {"where": "model build" if not okm else "?", "log": outm[-1500:] if not okm else ""})})
     if corr_err:
@@ -633,7 +712,7 @@ def run(ctx):
             topics[d["topic"]] = topics.get(d["topic"], 0) + 1
         broken.append({"correspondence": "model vs implementation", "topics": topics, "first_disagreements": dis[:4], "n": len(dis)})
     if broken and not fails:
-        ctx.violation("C18 no longer shown: " + ("proof" if not proved else "correspondence") + " broken"
+        ctx.violation("C18 no longer shown: " + ("structural pin" if gen_err else "proof" if not proved else "correspondence") + " broken"
                       + ("; " + dis[0]["topic"] if dis else ""),
                       {"broken": broken, "search": "property judge over %d implementation evaluations (round trips, all mutation streams, metadata scenarios) found no failing input" % n_eval}, False)
     ctx.write_evidence(LEVEL)
